@@ -286,6 +286,11 @@ class Exec:
                 if attr in kk.attrs: yield st, self.const_eval(kk.module, kk.attrs[attr], kk); return
                 if attr in kk.methods: yield st, FuncRef(kk.module, kk, kk.methods[attr], bound=None); return
             raise Unsupported("class attr %s.%s" % (base.info.name, attr))
+        if isinstance(base, Sym) and base.ty.kind == "opt" and base.ty.args[0].kind in ("abs", "str"):
+            isn = sort_of(base.ty).is_none(base.z)
+            if feasible(st.pc, isn):
+                sb = st.copy(); sb.pc.append(isn); yield sb, Raise(self.new_builtin_exc(sb, "AttributeError", ["'NoneType' object has no attribute %s" % attr]))
+            st.pc.append(z3.Not(isn)); base = opt_payload(base)
         if isinstance(base, Sym) and base.ty.kind == "abs":
             ac = self.contracts.get("absattr:%s.%s" % (base.ty.args[0], attr))
             if ac is not None:
@@ -356,6 +361,14 @@ class Exec:
             yield st, Sym(base.elem_ty, base.at(i)); return
         if isinstance(base, Sym) and base.ty.kind == "tuple":
             srt = sort_of(base.ty); yield st, Sym(base.ty.args[idx], srt.accessor(0, idx)(base.z)); return
+        if isinstance(base, Sym) and base.ty.kind == "seqlist":
+            n = z3.Length(base.z); i = lift(idx).z
+            if isinstance(idx, int) and idx < 0: i = n + idx
+            inb = z3.And(i >= 0, i < n)
+            if feasible(st.pc, z3.Not(inb)):
+                sb = st.copy(); sb.pc.append(z3.Not(inb)); yield sb, Raise(self.new_builtin_exc(sb, "IndexError", ["list index out of range"]))
+            st.pc.append(inb)
+            yield st, Sym(base.ty.args[0], base.z[i]); return
         if isinstance(base, Sym) and base.ty.kind == "str":
             i = lift(idx).z
             if isinstance(idx, int) and idx < 0: i = z3.Length(base.z) + idx
@@ -378,6 +391,14 @@ class Exec:
                 return z3.If(z < 0, z3.If(n + z < 0, 0, n + z), z3.If(z > n, n, z))
             l = norm(lo, z3.IntVal(0)); h = norm(hi, n)
             yield st, Sym(STR, z3.SubString(base.z, l, z3.If(h - l < 0, 0, h - l))); return
+        if isinstance(base, Sym) and base.ty.kind == "seqlist":
+            n = z3.Length(base.z)
+            def norm(v, default):
+                if v is None: return default
+                z = lift(v).z
+                return z3.If(z < 0, z3.If(n + z < 0, 0, n + z), z3.If(z > n, n, z))
+            l = norm(lo, z3.IntVal(0)); h = norm(hi, n)
+            yield st, Sym(base.ty, z3.Extract(base.z, l, z3.If(h - l < 0, 0, h - l))); return
         if isinstance(base, UFL):
             n = base.length
             def norm(v, default):
@@ -558,6 +579,13 @@ class Exec:
             f = {ast.Add: operator.add, ast.Sub: operator.sub, ast.Mult: operator.mul, ast.FloorDiv: operator.floordiv, ast.Mod: operator.mod, ast.Pow: operator.pow,
                  ast.BitOr: operator.or_, ast.BitAnd: operator.and_, ast.BitXor: operator.xor, ast.LShift: operator.lshift, ast.RShift: operator.rshift, ast.Div: operator.truediv}[type(op)]
             yield st, f(a, b); return
+        if isinstance(op, ast.Add) and ((isinstance(a, Sym) and a.ty.kind == "seqlist") or (isinstance(b, Sym) and b.ty.kind == "seqlist")):
+            def seqz(v, ty):
+                if isinstance(v, Sym): return v.z
+                if not v: return z3.Empty(sort_of(ty))
+                us = [z3.Unit(lift_to(ty.args[0], x)) for x in v]; return z3.Concat(*us) if len(us) > 1 else us[0]
+            ty = a.ty if isinstance(a, Sym) else b.ty
+            yield st, Sym(ty, z3.Concat(seqz(a, ty), seqz(b, ty))); return
         if isinstance(op, ast.Mult) and isinstance(a, list) and len(a) == 1 and isinstance(b, Sym) and b.ty.kind == "int":
             yield st, RepeatList(a[0], b); return         # [x] * n
         if isinstance(a, UFL) or isinstance(b, UFL): raise Unsupported("list arithmetic")
